@@ -151,6 +151,38 @@ def TermsP.ofRequest (field : Field) (missing : Option Int) (size segSize minDoc
 def KMap.restrict {V : Type} (m : KMap V) (keep : List Int) : KMap V :=
   ⟨m.hull, fun k => if keep.contains k then m.get k else Option.none⟩
 
+def validKey (after : Option Int) (k : Int) : Bool :=
+  match after with
+  | some a => decide (a < k)
+  | Option.none => true
+
+/-- keys of the page: the first `size` present keys after `after`, in key order -/
+def pageKeys {V : Type} (size : Nat) (after : Option Int) (m : KMap (Nat × V)) : List Int :=
+  ((spanOf m.hull).filter (fun k => validKey after k && (m.get k).isSome)).take size
+
+/-- mirrors: the per-segment eviction (`collect_bucket_with_limit`) and
+`IntermediateCompositeBucketResult::trim` — only the page survives -/
+def compTrim {V : Type} (size : Nat) (after : Option Int) (m : KMap (Nat × V)) : KMap (Nat × V) :=
+  m.restrict (pageKeys size after m)
+
+/-- the fruit of one segment for a composite node, WITH the per-segment eviction -/
+def collectSegComposite {M : Type} [AddOp M] (srcs : List CompSrc) (size : Nat) (after : Option Int) (sub : Req)
+    (docs : List Doc) : KMap (Nat × Inter M sub) :=
+  compTrim size after (collect (.composite srcs size after sub) docs)
+
+/-- mirrors: intermediate_agg_result.rs::IntermediateCompositeBucketResult::merge_fruits — merge
+the maps, then `trim` only when more than `2 * target_size` entries are held -/
+def compMergeFruits {V : Type} (f : (Nat × V) → (Nat × V) → (Nat × V)) (size : Nat) (after : Option Int)
+    (a b : KMap (Nat × V)) : KMap (Nat × V) :=
+  let m := KMap.merge f a b
+  if m.entries.length > 2 * size then compTrim size after m else m
+
+/-- the merge of a trimming schedule decided by an arbitrary predicate on the merged map -/
+def compMergeWhen {V : Type} (dec : KMap (Nat × V) → Bool) (f : (Nat × V) → (Nat × V) → (Nat × V)) (size : Nat)
+    (after : Option Int) (a b : KMap (Nat × V)) : KMap (Nat × V) :=
+  let m := KMap.merge f a b
+  if dec m then compTrim size after m else m
+
 /-- mirrors: term_agg/mod.rs::into_intermediate_bucket_result + cut_off_buckets: when a segment
 holds more than `segment_size` distinct terms only the first `segment_size` in request order are
 kept, the cut doc counts go to `sum_other_doc_count`, and the doc count of the first cut bucket
@@ -178,9 +210,42 @@ def harvest : (r : Req) → Inter M r → Inter M r
   | .range _ _ sub, x => KMap.mapVals (harvest sub) x
   | .filter _ _ sub, x => (x.1, harvest sub x.2)
   | .topHits _ _ _ _, x => x
-  -- the per-segment eviction down to `size` buckets is not modelled: it keeps the first
-  -- `size` buckets in key order, which cannot change the first `size` of the merged result
+  -- the per-segment eviction down to `size` buckets is modelled separately (`collectSegComposite`,
+  -- `compMergeFruits`) and proved invisible in the returned page (C14_composite_merge_fruits_eq_evalAggPV)
   | .composite _ _ _ sub, x => KMap.mapVals (harvest sub) x
+
+/-- what the composite collectors of one segment do to the whole intermediate tree: EVERY composite
+node (at any depth, in every parent bucket) keeps only its page — the first `size` buckets after
+`after` (mirrors: bucket/composite/collector.rs::collect_bucket_with_limit, one top-`size` map per
+parent bucket).  The terms cut is `harvest`; the two are independent. -/
+def evict : (r : Req) → Inter M r → Inter M r
+  | .none, _ => ()
+  | .both a b, x => (evict a x.1, evict b x.2)
+  | .metric _ _, x => x
+  | .terms _ sub, x => ⟨x.map.mapVals (evict sub), x.other, x.err⟩
+  | .hist _ sub, x => KMap.mapVals (evict sub) x
+  | .range _ _ sub, x => KMap.mapVals (evict sub) x
+  | .filter _ _ sub, x => (x.1, evict sub x.2)
+  | .topHits _ _ _ _, x => x
+  | .composite _ size after sub, x => compTrim size after (KMap.mapVals (evict sub) x)
+
+/-- the fruit of one segment with composite eviction everywhere -/
+def collectSegEvict (r : Req) (docs : List Doc) : Inter M r := evict r (collect r docs)
+
+/-- the complete segment model: collect, cut the terms nodes (`harvest`), evict at the composite nodes -/
+def collectSegFull (r : Req) (docs : List Doc) : Inter M r := evict r (harvest r (collect r docs))
+
+/-- no terms node anywhere in the request: nothing is cut at segment level -/
+def Req.cutFree : Req → Bool
+  | .none => true
+  | .both a b => a.cutFree && b.cutFree
+  | .metric _ _ => true
+  | .terms _ _ => false
+  | .hist _ sub => sub.cutFree
+  | .range _ _ sub => sub.cutFree
+  | .filter _ _ sub => sub.cutFree
+  | .topHits _ _ _ _ => true
+  | .composite _ _ _ sub => sub.cutFree
 
 /-- the fruit of one segment -/
 def collectSeg (r : Req) (docs : List Doc) : Inter M r := harvest r (collect r docs)
